@@ -197,22 +197,54 @@ def oracle(l, impl):
     return None
 
 
+def image_chain(o, keyname):
+    """the tags of the cells the on-disk links lead through, starting at the (only) inode of the key, from the last rock image"""
+    img = o["img"][-1] if o and o["img"] and o["img"][-1].startswith("rock:") else None
+    if not img:
+        return None
+    cells = {}
+    for c in img.split(":", 3)[3].split(";"):
+        f = c.split(",")
+        if len(f) == 11:
+            cells[int(f[0])] = {"key": f[1], "first": int(f[7]), "next": int(f[8]), "tag": f[10]}
+    inodes = [sl for sl, c in cells.items() if c["key"] == keyname and c["first"] == sl]
+    if len(inodes) != 1:
+        return None
+    tags, cur, seen = [], inodes[0], set()
+    while cur >= 0 and cur in cells and cur not in seen:
+        seen.add(cur)
+        tags.append(cells[cur]["tag"])
+        cur = cells[cur]["next"]
+    return tags
+
+
 def classify(l, impl, why):
     sc = H.parse_line(l)
     if sc is None or not why:
         return None
-    m = re.search(r"!pieces\(([^)]*)\)", why)
-    if not sc["store"].startswith("rock") or not m or "hit differs" not in why:
+    m = re.search(r"probe of key (\d+) after the restart: hit differs", why) or re.search(r"phase \d+: hit differs", why)
+    if not sc["store"].startswith("rock") or not m or "!pieces(" not in why:
         return None
-    pieces = [re.sub(r"~\d+$", "", x) for x in m.group(1).split("+")]
+    o = split_obs(impl or "")
+    if o is None:
+        return None
+    if m.lastindex:
+        keys = ["k%d" % int(m.group(1))]
+    else:
+        keys = ["k%d" % k for k in range(sc["nkeys"])]
     torn = any(c[0] == "n" and c[2] > 0 for _, c in sc["phases"])
-    if "x" in pieces:
-        # bytes that are no piece of any response: only a torn write explains them
-        return "C16-rock-torn-slot-accepted" if torn else None
-    srcs = set(re.match(r"([kx]\d+v\d+)p\d+$", p).group(1) if re.match(r"([kx]\d+v\d+)p\d+$", p) else p for p in pieces)
-    keys = set(s.split("v")[0] for s in srcs)
-    if len(srcs) >= 2 and len(keys) == 1:
-        return "C16-rock-stale-slot-splice"
+    for keyname in keys:
+        tags = image_chain(o, keyname)
+        if not tags:
+            continue
+        if "x" in tags:
+            # bytes that are no piece of any response: only a torn write explains them
+            if torn:
+                return "C16-rock-torn-slot-accepted"
+            continue
+        srcs = set(re.match(r"([kx]\d+v\d+)p\d+$", t).group(1) for t in tags if re.match(r"([kx]\d+v\d+)p\d+$", t))
+        if len(srcs) >= 2 and all(x.split("v")[0] == keyname for x in srcs):
+            return "C16-rock-stale-slot-splice"
     return None
 
 
@@ -277,9 +309,9 @@ def same_lookup(real, pred, name, vers, cal, slot_size):
     if m:
         got = m.group(1).split("+")
         if got and "~" in got[-1]:
-            # the reply header promised fewer bytes than the chain holds: the response ends inside a piece
-            got[-1] = got[-1].split("~")[0]
-            return tags[:len(got)] == got
+            # the reply header promised fewer bytes than the chain holds: the response ends inside a piece (whose few bytes
+            # may not identify it)
+            return len(tags) >= len(got) and tags[:len(got) - 1] == got[:-1]
         return tags == got
     return False
 
@@ -477,6 +509,10 @@ def ufs_trace_events(trace_phase):
             st["written"] += ln
             evs.append(("a", fileno, ln))
         elif f[0] == "U":
+            st = by_file.get(fileno)
+            if st is not None and st["total"] is None and not st.get("aborted"):
+                st["aborted"] = True
+                evs.append(("x", st))
             evs.append(("u", fileno))
         elif f[0] == "T":
             pass
@@ -492,6 +528,8 @@ def ufs_trace_events(trace_phase):
             out.append("l,%d,%d,%d,%s,%d,0,%d" % (e[1], e[2], e[3], e[4], 0, e[5]["id"]))
         elif e[0] == "u":
             out.append("u,%d" % e[1])
+        elif e[0] == "x":
+            out.append("x,%d" % e[1]["id"])
     # the key of a swap-out is known from its ADD record; swap-outs that never logged one keep a private name
     names = {}
     for e in evs:
